@@ -162,9 +162,16 @@ class Eval:
             return float(t[2])
         return t[2]
 
+    # naga::Scalar constants and constructors (pinned naga source, proc/mod.rs: `impl Scalar`)
+    NAGA_SCALARS = {'I32': ('Sint', 4), 'U32': ('Uint', 4), 'F32': ('Float', 4), 'F64': ('Float', 8), 'I64': ('Sint', 8), 'U64': ('Uint', 8), 'BOOL': ('Bool', 1),
+                    'ABSTRACT_INT': ('AbstractInt', 8), 'ABSTRACT_FLOAT': ('AbstractFloat', 8)}
+
     def ev_path(self, t):
         p = t[1]
         segs = p.split('::')
+        if len(segs) >= 2 and segs[-2] == 'Scalar' and segs[-1] in self.NAGA_SCALARS and p.replace('crate::', 'naga::').startswith('naga::'):
+            k_, w_ = self.NAGA_SCALARS[segs[-1]]
+            return V('naga::Scalar', kind=V('naga::ScalarKind::' + k_), width=w_)
         if len(segs) >= 2:
             ty = '::'.join(segs[:-1])
             for ft in self.flag_types:
@@ -216,6 +223,8 @@ class Eval:
 
     def ev_call(self, t):
         p, args = t[1], t[2]
+        if p == 'naga::Scalar::float' and len(args) == 1:
+            return V('naga::Scalar', kind=V('naga::ScalarKind::Float'), width=self.ev(args[0]))
         if p in ('Ident::new', 'Literal::usize_unsuffixed', 'Literal::u32_unsuffixed', 'Literal::u64_unsuffixed', 'Literal::i32_unsuffixed'):
             v = self.ev(args[0])
             return str(int(v)) if p.startswith('Literal') else str(v)
